@@ -1,4 +1,4 @@
-import DFV.Lemmas.C06Fld
+import DFV.Lemmas.C06Ok
 /-!
 # C06 — integrals and means are cell sums times cell measure, consistent across axes
 
@@ -275,6 +275,286 @@ theorem mean_dir_eq (f : Fld) (hf : WF f) (d : String) (gi : Fld) (r : Res)
   have hcp := cell_pos' f.mesh hf.1 ax haxlt
   show _ / ((f.mesh.nAt ax : Nat) : Rat) = _
   field_simp
+
+/-! ## Every form at once; linear, per component, independent of the mesh position -/
+
+/-- every successful `integrate` returns the spec values on the spec shape -/
+theorem integrate_vals (f : Fld) (hf : WF f) (dir : Dir) (cum : Bool) (r : Res)
+    (h : integrate f dir cum = .ok r) :
+    r.nv = f.nvdim ∧ r.shape = ishape f dir cum ∧
+    ∀ i c, inRange r.shape i = true → c < f.nvdim → r.cval i c = ival f dir cum i c := by
+  cases dir with
+  | none =>
+    cases cum with
+    | true => cases h
+    | false =>
+      rw [integrate_all] at h
+      injection h with h; subst h
+      refine ⟨by simp [Res.nv], rfl, ?_⟩
+      intro i c _ hc
+      simp only [Res.cval, ival]
+      rw [getD_tab _ _ _ _ hc]
+  | name d =>
+    cases cum with
+    | true =>
+      obtain ⟨ax, g, hax, hr, _, hs, hnv, _, hval⟩ := cumulative_formula f d r h
+      subst hr
+      refine ⟨hnv, ?_, ?_⟩
+      · simp only [Res.shape, ishape, hax, if_true]; rw [hs, hf.2]
+      · intro i c hi hc
+        simp only [Res.cval, ival, hax, if_true]
+        exact hval i c (by simpa [Res.shape, hs] using hi) hc
+    | false =>
+      cases r with
+      | vals v =>
+        obtain ⟨h1, hax, hv⟩ := integrate_dir_1d f hf d v h
+        have hlen1 : f.mesh.n.length = 1 := by rw [hf.1.2.1]; exact h1
+        refine ⟨by rw [hv]; simp [Res.nv], ?_, ?_⟩
+        · simp only [Res.shape, ishape, hax, Bool.false_eq_true, if_false]
+          match hn : f.mesh.n, hlen1 with
+          | [k], _ => rfl
+        · intro i c hi hc
+          have := inRange_nil_iff i hi
+          subst this
+          simp only [Res.cval, ival, hax, Bool.false_eq_true, if_false, insertAt_zero]
+          rw [hv, getD_tab _ _ _ _ hc]
+      | field g =>
+        obtain ⟨ax, hax, _, _, _, _, _, _, hs, hnv, _, _, _, _, hval⟩ := integrate_dir f hf d g h
+        refine ⟨hnv, ?_, ?_⟩
+        · simp only [Res.shape, ishape, hax, Bool.false_eq_true, if_false]; exact hs
+        · intro i c hi hc
+          simp only [Res.cval, ival, hax, Bool.false_eq_true, if_false]
+          exact hval i c (by simpa [Res.shape, hs] using hi) hc
+  | names ds => cases h
+  | other => cases h
+
+/-- whether `integrate` succeeds, and on which mesh the result lives, depends only on the
+mesh and the shape of the value array -/
+theorem integrate_frame (f f' : Fld) (hm : f'.mesh = f.mesh) (hs : f'.data.shape = f.data.shape)
+    (dir : Dir) (cum : Bool) (r : Res) (h : integrate f dir cum = .ok r) :
+    ∃ r', integrate f' dir cum = .ok r' ∧ r'.mesh? = r.mesh? := by
+  cases dir with
+  | none =>
+    cases cum with
+    | true => cases h
+    | false =>
+      unfold integrate at h
+      simp only [Bool.false_eq_true, if_false] at h
+      injection h with h; subst h
+      exact ⟨_, rfl, rfl⟩
+  | name d =>
+    cases cum with
+    | true =>
+      obtain ⟨ax, hax, hshape, hr⟩ := integrate_cum_unpack f d r h
+      subst hr
+      refine ⟨.field { mesh := f.mesh, nvdim := f'.nvdim,
+                       data := (cumAxis f'.nvdim (f.mesh.cellAt ax) f'.data ax).force [],
+                       valid := NDA.const f.mesh.n true, vdims := f'.vdims, vmap := f'.vmap, unit := none }, ?_, rfl⟩
+      unfold integrate
+      simp only [hm, hax, if_true]
+      have : mkFld f.mesh f'.nvdim (cumAxis f'.nvdim (f.mesh.cellAt ax) f'.data ax) f'.vdims f'.vmap none
+          = .ok { mesh := f.mesh, nvdim := f'.nvdim,
+                  data := (cumAxis f'.nvdim (f.mesh.cellAt ax) f'.data ax).force [],
+                  valid := NDA.const f.mesh.n true, vdims := f'.vdims, vmap := f'.vmap, unit := none } := by
+        unfold mkFld
+        have : (cumAxis f'.nvdim (f.mesh.cellAt ax) f'.data ax).shape = f.mesh.n := by
+          show f'.data.shape = _
+          rw [hs, hshape]
+        simp [this]
+      rw [this]
+    | false =>
+      cases r with
+      | vals v =>
+        obtain ⟨ax, hax, h1, _⟩ := integrate_dir_1d_unpack f d v h
+        refine ⟨.vals ((scaleBy f'.nvdim (f.mesh.cellAt ax) (sumAxis f'.nvdim f'.data ax)).get []), ?_, rfl⟩
+        unfold integrate
+        simp only [hm, hax, Bool.false_eq_true, if_false, h1, if_true]
+      | field g =>
+        obtain ⟨ax, m', hax, hne1, hsel, hshape, hg⟩ := integrate_dir_unpack f d g h
+        subst hg
+        refine ⟨.field { mesh := m', nvdim := f'.nvdim,
+                         data := (scaleBy f'.nvdim (f.mesh.cellAt ax) (sumAxis f'.nvdim f'.data ax)).force [],
+                         valid := NDA.const m'.n true, vdims := f'.vdims, vmap := f'.vmap, unit := none }, ?_, rfl⟩
+        unfold integrate
+        simp only [hm, hax, Bool.false_eq_true, if_false, hne1, hsel]
+        have : mkFld m' f'.nvdim (scaleBy f'.nvdim (f.mesh.cellAt ax) (sumAxis f'.nvdim f'.data ax)) f'.vdims f'.vmap none
+            = .ok { mesh := m', nvdim := f'.nvdim,
+                    data := (scaleBy f'.nvdim (f.mesh.cellAt ax) (sumAxis f'.nvdim f'.data ax)).force [],
+                    valid := NDA.const m'.n true, vdims := f'.vdims, vmap := f'.vmap, unit := none } := by
+          unfold mkFld
+          have : (scaleBy f'.nvdim (f.mesh.cellAt ax) (sumAxis f'.nvdim f'.data ax)).shape = m'.n := by
+            show removeAt f'.data.shape ax = _
+            rw [hs, hshape]
+          simp [this]
+        rw [this]
+  | names ds => cases h
+  | other => cases h
+
+/-- All forms of `integrate` are linear in the field: for two fields on the same mesh the
+integral of `α·f + β·g` exists whenever those of `f` and `g` do, lives on the same mesh and
+equals `α·∫f + β·∫g` entry by entry. -/
+theorem integrate_linear (α β : Rat) (f g : Fld) (hf : WF f) (hm : g.mesh = f.mesh)
+    (hn : g.nvdim = f.nvdim) (hs : g.data.shape = f.data.shape) (dir : Dir) (cum : Bool) (rf rg : Res)
+    (h1 : integrate f dir cum = .ok rf) (h2 : integrate g dir cum = .ok rg) :
+    ∃ r, integrate (lin α f β g) dir cum = .ok r ∧ r.mesh? = rf.mesh? ∧ r.shape = rf.shape ∧
+      ∀ i c, inRange r.shape i = true → c < f.nvdim →
+        r.cval i c = α * rf.cval i c + β * rg.cval i c := by
+  obtain ⟨r, hr, hmesh⟩ := integrate_frame f (lin α f β g) rfl rfl dir cum rf h1
+  have hwl : WF (lin α f β g) := ⟨hf.1, hf.2⟩
+  have hwg : WF g := ⟨by rw [hm]; exact hf.1, by rw [hs, hm]; exact hf.2⟩
+  obtain ⟨_, hsl, hvl⟩ := integrate_vals _ hwl dir cum r hr
+  obtain ⟨_, hsf, hvf⟩ := integrate_vals f hf dir cum rf h1
+  obtain ⟨_, hsg, hvg⟩ := integrate_vals g hwg dir cum rg h2
+  have hss : r.shape = rf.shape := by rw [hsl, hsf]; rfl
+  have hsg' : rg.shape = rf.shape := by rw [hsg, hsf]; unfold ishape; rw [hm]
+  refine ⟨r, hr, hmesh, hss, ?_⟩
+  intro i c hi hc
+  rw [hvl i c hi hc, hvf i c (by rw [← hss]; exact hi) hc,
+    hvg i c (by rw [hsg', ← hss]; exact hi) (by rw [hn]; exact hc)]
+  exact ival_lin α β f g hm hs dir cum i c hc
+
+/-- All forms of `integrate` act per component: integrating the scalar field of component
+`c` gives component `c` of the integral, on the same mesh. -/
+theorem integrate_componentwise (f : Fld) (hf : WF f) (c : Nat) (hc : c < f.nvdim) (dir : Dir) (cum : Bool)
+    (rf : Res) (h : integrate f dir cum = .ok rf) :
+    ∃ r, integrate (compFld f c) dir cum = .ok r ∧ r.mesh? = rf.mesh? ∧ r.shape = rf.shape ∧ r.nv = 1 ∧
+      ∀ i, inRange r.shape i = true → r.cval i 0 = rf.cval i c := by
+  obtain ⟨r, hr, hmesh⟩ := integrate_frame f (compFld f c) rfl rfl dir cum rf h
+  have hwc : WF (compFld f c) := ⟨hf.1, hf.2⟩
+  obtain ⟨hnv, hsl, hvl⟩ := integrate_vals _ hwc dir cum r hr
+  obtain ⟨_, hsf, hvf⟩ := integrate_vals f hf dir cum rf h
+  have hss : r.shape = rf.shape := by rw [hsl, hsf]; rfl
+  refine ⟨r, hr, hmesh, hss, hnv, ?_⟩
+  intro i hi
+  rw [hvl i 0 hi (by show 0 < 1; omega), hvf i c (by rw [← hss]; exact hi) hc]
+  exact ival_comp f c dir cum i
+
+/-- The values of every form of `integrate` do not depend on where the mesh sits: moving the
+region (and its subregions) by any vector `t` leaves shape and values unchanged. -/
+theorem integrate_translation_invariant (t : List Rat) (f : Fld) (hf : WF f) (dir : Dir) (cum : Bool)
+    (r r' : Res) (h : integrate f dir cum = .ok r) (h' : integrate (translate t f) dir cum = .ok r') :
+    r'.shape = r.shape ∧
+    ∀ i c, inRange r.shape i = true → c < f.nvdim → r'.cval i c = r.cval i c := by
+  obtain ⟨_, hs, hv⟩ := integrate_vals f hf dir cum r h
+  obtain ⟨_, hs', hv'⟩ := integrate_vals _ (translate_wf t f hf) dir cum r' h'
+  have hss : r'.shape = r.shape := by rw [hs, hs']; rfl
+  refine ⟨hss, ?_⟩
+  intro i c hi hc
+  rw [hv' i c (by rw [hss]; exact hi) hc, hv i c hi hc]
+  exact ival_translate t f hf.1 dir cum i c
+
+/-- … and the integral over all directions of the moved field is literally the same. -/
+theorem integrate_all_translation_invariant (t : List Rat) (f : Fld) (hf : WF f) :
+    integrate (translate t f) .none false = integrate f .none false := by
+  rw [integrate_all, integrate_all]
+  have : dV (translate t f).mesh = dV f.mesh := translate_dV t f hf.1
+  rw [this]
+  rfl
+
+/-! ## The successful branches are reached (total correctness without subregions) -/
+
+/-- `integrate(d)` succeeds for every direction of a well-formed field without subregions:
+a field on the reduced mesh for two or more dimensions, the bare array in 1-d. -/
+theorem integrate_dir_ok (f : Fld) (hf : WF f) (hsubs : f.mesh.subs = []) (d : String)
+    (hd : d ∈ f.mesh.region.dims) :
+    (2 ≤ f.mesh.ndim → ∃ g, integrate f (.name d) false = .ok (.field g) ∧ g.mesh.subs = []) ∧
+    (f.mesh.ndim = 1 → ∃ v, integrate f (.name d) false = .ok (.vals v)) := by
+  obtain ⟨ax, hax⟩ := dim2index_of_mem _ _ hd
+  constructor
+  · intro h2
+    obtain ⟨m', hsel, hms⟩ := sel_ok f.mesh hf.1 hsubs h2 d ax hax
+    obtain ⟨ax', hax', _, _, _, _, _, _, _, hn, _, _⟩ := sel_spec f.mesh hf.1 d m' hsel
+    rw [hax] at hax'; injection hax' with hax'; subst hax'
+    have hne1 : ¬ f.mesh.ndim = 1 := by omega
+    have hshape : (scaleBy f.nvdim (f.mesh.cellAt ax) (sumAxis f.nvdim f.data ax)).shape = m'.n := by
+      show removeAt f.data.shape ax = _
+      rw [hf.2, hn]
+    unfold integrate
+    simp only [hax, Bool.false_eq_true, if_false, hne1, hsel, mkFld, hshape, ne_eq, not_true_eq_false]
+    exact ⟨_, rfl, hms⟩
+  · intro h1
+    unfold integrate
+    simp only [hax, Bool.false_eq_true, if_false, h1, if_true]
+    exact ⟨_, rfl⟩
+
+/-- Integrating direction by direction succeeds for every ordering `ds` of the directions
+(no repetition, every entry a direction of the mesh, all directions used) of a well-formed
+field without subregions — and then gives `integrate()` (theorem `fubini`). -/
+theorem fubini_total (f : Fld) (hf : WF f) (hsubs : f.mesh.subs = []) (ds : List String)
+    (hnd : ds.Nodup) (hmem : ∀ d ∈ ds, d ∈ f.mesh.region.dims) (hlen : ds.length = f.mesh.ndim) :
+    integrateSeq f ds = integrate f .none false := by
+  suffices hok : ∃ r, integrateSeq f ds = .ok r by
+    obtain ⟨r, hr⟩ := hok
+    rw [hr, fubini f hf ds hlen r hr]
+  induction ds generalizing f with
+  | nil =>
+    have := hf.1.1.1
+    have h0 : f.mesh.ndim = f.mesh.region.pmin.length := rfl
+    simp at hlen; omega
+  | cons d ds ih =>
+    have hd := hmem d (by simp)
+    obtain ⟨hA, hB⟩ := integrate_dir_ok f hf hsubs d hd
+    by_cases h1 : f.mesh.ndim = 1
+    · obtain ⟨v, hv⟩ := hB h1
+      have hds : ds = [] := by
+        have : ds.length = 0 := by simp at hlen; omega
+        exact List.eq_nil_of_length_eq_zero this
+      subst hds
+      unfold integrateSeq
+      simp only [hv, List.isEmpty_nil, if_true]
+      exact ⟨_, rfl⟩
+    · have h2 : 2 ≤ f.mesh.ndim := by
+        have := hf.1.1.1
+        have h0 : f.mesh.ndim = f.mesh.region.pmin.length := rfl
+        omega
+      obtain ⟨g, hg, hgs⟩ := hA h2
+      obtain ⟨ax, m', hax, _, hsel, hshape, hgeq⟩ := integrate_dir_unpack f d g hg
+      obtain ⟨ax', hax', haxlt, hpmin, _, hdims, _, hn, hgshape, _⟩ := integrate_dir f hf d g hg
+      rw [hax] at hax'; injection hax' with hax'; subst hax'
+      have hgm : g.mesh = m' := by rw [hgeq]
+      have hwf : WF g := ⟨by rw [hgm]; exact sel_inv f.mesh hf.1 d m' hsel, by rw [hgshape, hn]⟩
+      have hlen' : ds.length = g.mesh.ndim := by
+        have h1' : g.mesh.ndim = g.mesh.region.pmin.length := rfl
+        have h2' : f.mesh.ndim = f.mesh.region.pmin.length := rfl
+        rw [h1', hpmin, removeAt_length _ _ (by rw [← h2']; exact haxlt), ← h2', ← hlen]; simp
+      obtain ⟨_, hdname⟩ := dim2index_ok _ _ _ hax
+      have hmem' : ∀ d' ∈ ds, d' ∈ g.mesh.region.dims := by
+        intro d' hd'
+        rw [hdims]
+        apply mem_removeAt _ _ _ (hmem d' (by simp [hd']))
+        rw [hdname]
+        intro heq
+        subst heq
+        exact (List.nodup_cons.mp hnd).1 hd'
+      obtain ⟨r, hr⟩ := ih g hwf hgs (List.nodup_cons.mp hnd).2 hmem' hlen'
+      unfold integrateSeq
+      simp only [hg]
+      exact ⟨r, hr⟩
+
+/-- the cumulative integral succeeds for every direction of a well-formed field (any
+number of dimensions, subregions or not) -/
+theorem integrate_cum_ok (f : Fld) (hf : WF f) (d : String) (hd : d ∈ f.mesh.region.dims) :
+    ∃ g, integrate f (.name d) true = .ok (.field g) := by
+  obtain ⟨ax, hax⟩ := dim2index_of_mem _ _ hd
+  have hshape : (cumAxis f.nvdim (f.mesh.cellAt ax) f.data ax).shape = f.mesh.n := hf.2
+  unfold integrate
+  simp only [hax, if_true, mkFld, hshape, ne_eq, not_true_eq_false, if_false]
+  exact ⟨_, rfl⟩
+
+/-- `mean(d)` succeeds for every direction of a well-formed field without subregions that
+has at least two dimensions -/
+theorem mean_dir_ok (f : Fld) (hf : WF f) (hsubs : f.mesh.subs = []) (h2 : 2 ≤ f.mesh.ndim) (d : String)
+    (hd : d ∈ f.mesh.region.dims) : ∃ g, mean f (.name d) = .ok (.field g) := by
+  obtain ⟨ax, hax⟩ := dim2index_of_mem _ _ hd
+  obtain ⟨m', hsel, _⟩ := sel_ok f.mesh hf.1 hsubs h2 d ax hax
+  obtain ⟨ax', hax', _, _, _, _, _, _, _, hn, _, _⟩ := sel_spec f.mesh hf.1 d m' hsel
+  rw [hax] at hax'; injection hax' with hax'; subst hax'
+  have hshape : (divBy f.nvdim ((f.data.shape.getD ax 0 : Nat) : Rat) (sumAxis f.nvdim f.data ax)).shape = m'.n := by
+    show removeAt f.data.shape ax = _
+    rw [hf.2, hn]
+  unfold mean
+  simp only [hax, hsel, mkFld, hshape, ne_eq, not_true_eq_false, if_false]
+  exact ⟨_, rfl⟩
 
 /-! ## Refusals -/
 
